@@ -1584,6 +1584,46 @@ func runR46(c *Ctx) {
 			strictIfs = append(strictIfs, strictBranch{iff, ti})
 		}
 	})
+	// a branch on the boolean result of a helper of the package that itself branches on the strict flag
+	// (`if s, undeclared := c.firstUndeclared(list); undeclared { return err }`) consults the flag as well
+	branchesOnStrict := func(g *ssa.Function) bool {
+		found := false
+		eachInstr(g, func(in ssa.Instruction) {
+			if iff, ok := in.(*ssa.If); ok {
+				cond, _ := unNot(iff.Cond, true)
+				if fld, _ := fieldOf(cond); fld != nil && fld.Name() == "strict" {
+					found = true
+				}
+			}
+		})
+		return found
+	}
+	eachInstr(fn, func(in ssa.Instruction) {
+		iff, ok := in.(*ssa.If)
+		if !ok {
+			return
+		}
+		cond, val := unNot(iff.Cond, true)
+		var call *ssa.Call
+		switch t := cond.(type) {
+		case *ssa.Extract:
+			call, _ = t.Tuple.(*ssa.Call)
+		case *ssa.Call:
+			call = t
+		}
+		if call == nil {
+			return
+		}
+		g := call.Call.StaticCallee()
+		if g == nil || g.Blocks == nil || g.Pkg != fn.Pkg || !branchesOnStrict(g) {
+			return
+		}
+		ti := 0
+		if !val {
+			ti = 1
+		}
+		allStrict = append(allStrict, strictBranch{iff, ti})
+	})
 	if len(strictIfs) == 0 {
 		c.bad(key, p.pos(fn.Pos()), "no branch on the column's strict flag returns an error: filtering a strict (declared) enum against an undeclared value is silently accepted")
 		return
@@ -2047,6 +2087,12 @@ func runR34(c *Ctx) {
 			if len(callers) > 0 && !asValue {
 				for _, ci := range callers {
 					in := ci.(ssa.Instruction)
+					if call, ok := in.(*ssa.Call); ok && isDeclaredRegistration(call) {
+						// the constructor registers the declared values in a factory it has just allocated (not
+						// strict yet); how many there may be is the declared-cardinality obligation
+						c.okTrivial(fname(in.Parent())+"|declared values registered", p.instrPos(in), "declared values are entered one by one into the factory under construction; their number is bounded by the declared-cardinality check")
+						continue
+					}
 					check(site{in.Parent(), in.Block(), in}, strictOK, cardOK, hi, depth+1)
 				}
 				return
@@ -2146,18 +2192,45 @@ func runR36(c *Ctx) {
 	} else {
 		c.ok(key, p.pos(fn.Pos()), "all five data column types have a builder")
 	}
-	// fall-through returns an error
-	var rets []*ssa.Return
-	eachInstr(fn, func(in ssa.Instruction) {
-		if r, ok := in.(*ssa.Return); ok {
-			rets = append(rets, r)
+	// fall-through returns an error: on every path on which each type assertion to a column type fails, the
+	// return that is reached carries a non-nil error (wherever the switch puts that return: after it, or in a
+	// default clause)
+	seen := map[*ssa.BasicBlock]bool{}
+	nRet, badRet := 0, ""
+	var walk func(b *ssa.BasicBlock)
+	walk = func(b *ssa.BasicBlock) {
+		if seen[b] {
+			return
 		}
-	})
-	sort.Slice(rets, func(i, j int) bool { return rets[i].Pos() < rets[j].Pos() })
-	if len(rets) > 0 && !returnsNilError(rets[len(rets)-1]) {
-		c.ok(fname(fn)+"|fall-through", p.instrPos(rets[len(rets)-1]), "unknown column types yield an error")
-	} else {
-		c.bad(fname(fn)+"|fall-through", p.pos(fn.Pos()), "the fall-through of the type switch does not return an error")
+		seen[b] = true
+		last := b.Instrs[len(b.Instrs)-1]
+		switch t := last.(type) {
+		case *ssa.Return:
+			nRet++
+			if returnsNilError(t) {
+				badRet = p.instrPos(t)
+			}
+			return
+		case *ssa.If:
+			if ex, ok := t.Cond.(*ssa.Extract); ok && ex.Index == 1 {
+				if ta, ok := ex.Tuple.(*ssa.TypeAssert); ok && ta.CommaOk {
+					walk(b.Succs[1]) // the assertion fails
+					return
+				}
+			}
+		}
+		for _, sc := range b.Succs {
+			walk(sc)
+		}
+	}
+	walk(fn.Blocks[0])
+	switch {
+	case nRet == 0:
+		c.undecided(fname(fn)+"|fall-through", p.pos(fn.Pos()), "no return is reachable when every type assertion fails")
+	case badRet != "":
+		c.bad(fname(fn)+"|fall-through", p.pos(fn.Pos()), "the fall-through of the type switch does not return an error: with a column of none of the handled types the return at "+badRet+" reports success")
+	default:
+		c.ok(fname(fn)+"|fall-through", p.pos(fn.Pos()), "unknown column types yield an error")
 	}
 }
 
